@@ -122,7 +122,8 @@ def real_C09(ctx, pexpect, thorough):
             return
     for k, sg in enumerate(sigs):
         obs = observers[k % len(observers)]
-        c = pexpect.spawn(sys.executable, ['-c', 'import os,signal; os.kill(os.getpid(), %d)\nimport time; time.sleep(5)' % sg], timeout=10)
+        # CPython starts with SIGPIPE / SIGXFSZ ignored: the child restores the default disposition before signalling itself
+        c = pexpect.spawn(sys.executable, ['-c', 'import os,signal\nif %d not in (9, 19): signal.signal(%d, signal.SIG_DFL)\nos.kill(os.getpid(), %d)\nimport time; time.sleep(5)' % (sg, sg, sg)], timeout=10)
         tried += 1
         if not observe(ctx, c, obs, (None, sg), 'kill -%d' % sg):
             return
@@ -137,7 +138,7 @@ def real_C09(ctx, pexpect, thorough):
                     % (code, r, r2, p.exitstatus, p.signalstatus, p.terminated), {'code': code})
             return
     for sg in sigs:
-        p = popen_spawn.PopenSpawn([sys.executable, '-c', 'import os; os.kill(os.getpid(), %d)\nimport time; time.sleep(5)' % sg])
+        p = popen_spawn.PopenSpawn([sys.executable, '-c', 'import os,signal\nif %d not in (9, 19): signal.signal(%d, signal.SIG_DFL)\nos.kill(os.getpid(), %d)\nimport time; time.sleep(5)' % (sg, sg, sg)])
         try:
             r = p.wait()
             r2 = p.wait()
